@@ -85,7 +85,37 @@ func genQuery(r *Rng, m *qMeta) []string {
 	G := m.Groups
 	small := !m.Big
 	for {
-		switch r.Intn(57) {
+		switch r.Intn(63) {
+		case 57, 58, 59, 60, 61, 62:
+			// every built-in, aggregate and analytic function csvq knows, with column-valued
+			// arguments, on a table that several workers share (the statement may well
+			// fail: then it must fail for every --cpu alike)
+			ensureFnNames()
+			cols := []string{"id", "g", "v", "s", "id", "v", "s", "v * 1.5", "s || 'x'", "NULL"}
+			params := []string{"2", "'%Y-%m-%d'", "'a'", "1", "g", "id % 3", "s", "0", "'UTC'", "@n", "@x"}
+			col := func() string { return cols[r.Intn(len(cols))] }
+			args := func() string {
+				a := []string{col()}
+				for i, n := 0, r.Pick(0, 0, 1, 1, 2); i < n; i++ {
+					a = append(a, params[r.Intn(len(params))])
+				}
+				return strings.Join(a, ", ")
+			}
+			var out []string
+			for i, n := 0, r.Range(2, 4); i < n; i++ {
+				switch r.Intn(5) {
+				case 0, 1:
+					out = append(out, fmt.Sprintf("SELECT id, %s(%s) AS f1, %s(%s) AS f2 FROM a;", builtinNames[r.Intn(len(builtinNames))], args(), builtinNames[r.Intn(len(builtinNames))], args()))
+				case 2:
+					d := r.PickS("", "", "DISTINCT ")
+					out = append(out, fmt.Sprintf("SELECT g, %s(%s%s) AS a1, %s(%s) AS a2 FROM a GROUP BY g;", aggNames[r.Intn(len(aggNames))], d, col(), aggNames[r.Intn(len(aggNames))], col()))
+				case 3:
+					out = append(out, fmt.Sprintf("SELECT id, %s(%s) OVER (PARTITION BY %s ORDER BY id) AS w1 FROM a;", anaNames[r.Intn(len(anaNames))], args(), r.PickS("g", "id % 7", "s")))
+				default:
+					out = append(out, fmt.Sprintf("SELECT id, %s(%s) OVER (PARTITION BY g ORDER BY v, id) AS w2, %s(%s) OVER () AS w3 FROM a;", aggNames[r.Intn(len(aggNames))], col(), aggNames[r.Intn(len(aggNames))], col()))
+				}
+			}
+			return out
 		case 54, 55:
 			// analytic functions whose parameters are taken from the rows (evaluated once per partition, per worker)
 			return []string{"SELECT id, LAG(v, 1, v) OVER (PARTITION BY g ORDER BY id) AS l1, LEAD(s, 2, s) OVER (PARTITION BY g ORDER BY id) AS l2, LAG(v, 1, id) OVER (PARTITION BY id % 7 ORDER BY id) AS l3 FROM a;", "SELECT id, NTH_VALUE(v, 2) OVER (PARTITION BY g ORDER BY id) AS n1, FIRST_VALUE(s) OVER (PARTITION BY id % 9 ORDER BY id) AS f1, LEAD(v, 1, -g) OVER (PARTITION BY id % 5 ORDER BY id DESC) AS l4 FROM a;"}
